@@ -66,6 +66,10 @@ def gen(rng, tier):
     case = {'cfg': cfg, 'names': names, 'c2s': msgs(), 's2c': msgs()}
     # handlers of both kinds (plain functions and coroutines) side by side
     cfg['mixed_kinds'] = rng.random() < 0.5
+    # the client is also connected to a namespace nothing is sent on; the
+    # server ends THAT namespace while messages (and their acknowledgements)
+    # are in flight on the others - which must not notice
+    cfg['spare_drop'] = rng.random() < 0.25
     if rng.random() < 0.3:
         # a second sender at wire level: consecutive events in ONE polling
         # payload (handled by the server back to back)
@@ -115,8 +119,10 @@ def _run(case, cfg, w):
     v = V(PROP)
     rec = w.rec
     w.net.transcode = cfg['transcode']
+    SPARE = '/spare'
+    all_nss = list(cfg['nss']) + ([SPARE] if cfg.get('spare_drop') else [])
     srv = w.add_server('s', async_handlers=cfg['async_handlers'],
-                       namespaces=list(cfg['nss']))
+                       namespaces=all_nss)
     c = w.add_client('c', reconnection=False)
     events = sorted(set(case['names']) | {'message'})
     rets = {'s': {}, 'c': {}}     # who -> {msg index -> ret} set before send
@@ -164,7 +170,7 @@ def _run(case, cfg, w):
                     ns, events + ['connect', 'disconnect'], plan, server=who,
                     coroutine=coroutine, base=base))
     h = w.call(c.connect, 'http://s', transports=['websocket'],
-               namespaces=list(cfg['nss']), wait_timeout=5)
+               namespaces=all_nss, wait_timeout=5)
     w.settle()
     if h.exc is not None or not c.connected:
         return {'harness': 'connect failed: %r' % (h.exc,)}
@@ -264,6 +270,13 @@ def _run(case, cfg, w):
                 if w.mode == 'thread' else 0
         n0 = rec.seq
         hs = sender(direction, msgs)
+        if cfg.get('spare_drop') and direction == 'c2s' and \
+                SPARE in c.namespaces and vadd is not add_look:
+            w.after(w.choices.pick('app', (0.0005, 0.002, 0.005, 0.015),
+                                   'spare'),
+                    lambda: w.api('s', 'disconnect', sids[SPARE],
+                                  namespace=SPARE))
+            rec.count('fault.server_ends_spare_namespace')
         w.settle(horizon=1.0)
         w.advance(1.0)
         if not hs.done:
